@@ -404,3 +404,17 @@ Proof.
     + intros [r [j [Hr [E [Hj Hd]]]]]. exists r. split; [exact Hr|]. cbv beta delta [nm] in E |- *. rewrite (proj2 (Nat.eqb_eq _ _) E).
       apply in_map_iff. exists j. now split.
 Qed.
+
+(* ------------------------------------------------------------------ re-tagging *)
+Theorem with_tags_lookup old new k :
+  tag_lookup (with_tags old new) k = match tag_lookup new k with Some v => Some v | None => tag_lookup old k end.
+Proof.
+  unfold tag_lookup, with_tags. induction new as [|[k' v] new IH]; simpl; [reflexivity|].
+  destruct (Nat.eqb k' k); [reflexivity | exact IH].
+Qed.
+
+(* the last definition of a name in the history is the one in force; names never redefined keep their first definition *)
+Theorem tag_history_last hist new k :
+  tag_lookup (tag_history (hist ++ [new])) k
+  = match tag_lookup new k with Some v => Some v | None => tag_lookup (tag_history hist) k end.
+Proof. unfold tag_history. rewrite fold_left_app. simpl. apply with_tags_lookup. Qed.
